@@ -43,7 +43,12 @@ from mdpax.problems.forest import ForestConfig
 from mdpax.problems.perishable_inventory.de_moor_single_product import DeMoorSingleProductPerishable as DM, DeMoorSingleProductPerishableConfig as DMC
 SOLV = {"ValueIteration": dict(gamma=0.9, epsilon=1e-3), "PolicyIteration": dict(gamma=0.9, epsilon=1e-3, max_eval_iter=3, convergence_test="max_diff", reset_values_for_each_policy_eval=True), "RelativeValueIteration": dict(epsilon=1e-3),
         "PeriodicValueIteration": dict(gamma=0.9, epsilon=1e-3, period=3, clear_value_history_on_convergence=False), "SemiAsyncValueIteration": dict(gamma=0.9, epsilon=1e-3, max_batch_size=2, shuffle_states=True, random_seed=7)}     # non-default options on purpose
-PROB = {"forest": (Forest, ForestConfig, dict(S=6, p=0.2)), "de_moor": (DM, DMC, dict(max_demand=3, max_useful_life=2, lead_time=1, max_order_quantity=2))}
+from mdpax.problems.perishable_inventory.hendrix_two_product import HendrixTwoProductPerishable as HX0, HendrixTwoProductPerishableConfig as HXC
+from mdpax.problems.perishable_inventory.mirjalili_platelet import MirjaliliPlateletPerishable as MJ0, MirjaliliPlateletPerishableConfig as MJC
+# every shipped problem, the tuple-valued parameters of the platelet problem included: on the configuration routes they arrive as OmegaConf list nodes, not tuples
+PROB = {"forest": (Forest, ForestConfig, dict(S=6, p=0.2)), "de_moor": (DM, DMC, dict(max_demand=3, max_useful_life=2, lead_time=1, max_order_quantity=2)),
+        "hendrix": (HX0, HXC, dict(max_useful_life=2, max_order_quantity_a=2, max_order_quantity_b=2, demand_poisson_mean_a=1.0, demand_poisson_mean_b=1.0)),
+        "mirjalili": (MJ0, MJC, dict(max_useful_life=2, max_order_quantity=2, max_demand=3, useful_life_at_arrival_distribution_c_0=(1.0,), useful_life_at_arrival_distribution_c_1=(0.5,)))}
 def res(st): return (int(st.info.iteration), np.asarray(st.values), np.asarray(st.policy))
 # ---------------------------------------------------------------- 64-bit mode is process-global: a single-precision solver built in between must not switch it off
 d1 = S.ValueIteration(Forest(S=5, p=0.2), gamma=0.9, epsilon=1e-3, verbose=0)                       # double precision requested (default)
@@ -53,7 +58,7 @@ if np.asarray(st.values).dtype != np.float64: R.fail("c20.float64_after_single_p
 jax.config.update("jax_enable_x64", True)
 # ---------------------------------------------------------------- three routes behave identically
 for sn, kw in SOLV.items():
-    for pn, (pcls, pcfg, pkw) in (PROB.items() if TH or sn in ("ValueIteration", "PolicyIteration") else [("forest", PROB["forest"])]):
+    for pn, (pcls, pcfg, pkw) in (PROB.items() if TH or sn == "ValueIteration" else [(k_, PROB[k_]) for k_ in ("forest", "de_moor")] if sn == "PolicyIteration" else [("forest", PROB["forest"])]):
         cls = getattr(S, sn); inp = dict(solver=sn, problem=pn, solver_kwargs=kw, problem_kwargs=pkw); R.case(("routes", sn, pn), inp)
         try:
             d = os.path.join(scratch, f"r_{sn}_{pn}")
@@ -71,6 +76,7 @@ for sn, kw in SOLV.items():
 try:
     d = os.path.join(scratch, "reused_dir")
     a1 = S.ValueIteration(Forest(S=6), gamma=0.5, epsilon=0.1, verbose=0, checkpoint_dir=d, checkpoint_frequency=1); a1.solve(2)
+    if getattr(a1, "checkpoint_manager", None) is not None: a1.checkpoint_manager.wait_until_finished(); a1.checkpoint_manager.close()     # the first writer is DONE before the directory is re-used (two live asynchronous writers on one directory are not part of the property; seen once as ENOENT under load)
     a2 = S.ValueIteration(Forest(S=6), gamma=0.95, epsilon=1e-6, verbose=0, checkpoint_dir=d, checkpoint_frequency=5); a2.solve(5)
     if getattr(a2, "checkpoint_manager", None) is not None: a2.checkpoint_manager.wait_until_finished()
     inp = dict(history="solver A (gamma 0.5, eps 0.1, f=1) writes into D; solver B (gamma 0.95, eps 1e-6, f=5) writes into the same D; restore(D)"); R.case(("reused_directory",), inp)
